@@ -427,17 +427,20 @@ class Wire:
         Wire.prepared = []
     
     def rename(self, newname):
-        del self.parent._wires[self.name]
-        self.name = newname
-        self.parent.appendWire(self)
+        self.reparentAndRename(self.parent, newname)
         
     def reparent(self, newparent):
-        del self.parent._wires[self.name]
-        self.parent = newparent
-        newparent.appendWire(self)
+        self.reparentAndRename(newparent, self.name)
 
     def reparentAndRename(self, newparent, newname):
-        del self.parent._wires[self.name]
+        # check the destination before touching anything, so that a refused
+        # call leaves this wire (and the one already using the name) in place
+        if (newparent._wires.get(newname, self) is not self):
+            raise Exception('a wire named {} already exist'.format(newname))
+            
+        if (self.parent._wires.get(self.name) is self):
+            del self.parent._wires[self.name]
+            
         self.name = newname
         self.parent = newparent
         newparent.appendWire(self)
@@ -547,17 +550,20 @@ class BidirWire(Wire):
         Wire.prepared = []
     
     def rename(self, newname):
-        del self.parent._wires[self.name]
-        self.name = newname
-        self.parent.appendWire(self)
+        self.reparentAndRename(self.parent, newname)
         
     def reparent(self, newparent):
-        del self.parent._wires[self.name]
-        self.parent = newparent
-        newparent.appendWire(self)
+        self.reparentAndRename(newparent, self.name)
 
     def reparentAndRename(self, newparent, newname):
-        del self.parent._wires[self.name]
+        # check the destination before touching anything, so that a refused
+        # call leaves this wire (and the one already using the name) in place
+        if (newparent._wires.get(newname, self) is not self):
+            raise Exception('a wire named {} already exist'.format(newname))
+            
+        if (self.parent._wires.get(self.name) is self):
+            del self.parent._wires[self.name]
+            
         self.name = newname
         self.parent = newparent
         newparent.appendWire(self)
